@@ -169,7 +169,46 @@ def nested_build_case(_=None):
   except Exception as e:   # pylint: disable=broad-except
     viols.append(dict(what=f'build after a rejected nested build raised {type(e).__name__}',
                       shape=[], sig='nested-build', store='', op='', scenario='nested'))
-  return 1, 1, viols, [dict(scenario='nested build', observed=seen)]
+  # every way of starting the outer build arms the check: fdl.build, a built Partial being called,
+  # an `auto_unconfig` function called as plain python, auto_config's as_buildable + build
+  from fiddle.experimental import auto_config
+  def nester(x=0):
+    return fdl.build(fdl.Config(dags.node_fn(1), x))
+  def mk():
+    return fdl.Config(dags.node_fn(0), fdl.Config(nester, 3), fdl.Config(dags.node_fn(2), 4))
+  @auto_config.auto_unconfig
+  def experiment():
+    return mk()
+  @auto_config.auto_config
+  def experiment2():
+    return dags.node_fn(0)(nester(3), dags.node_fn(2)(4))
+  starters = {
+      'fdl.build': lambda: fdl.build(mk()),
+      'auto_unconfig function called directly': experiment,
+      'auto_config.as_buildable + build': lambda: fdl.build(experiment2.as_buildable()),
+      'Partial built, then called': lambda: fdl.build(fdl.Partial(dags.node_fn(0), fdl.Config(nester, 3))),
+  }
+  n_extra = 0
+  for name, start in starters.items():
+    n_extra += 1
+    try:
+      r = start()
+      viols.append(dict(what=f'{name}: an fdl.build issued from inside a callable that was being built was '
+                             f'not rejected (returned {str(r)[:60]})',
+                        shape=[], sig='nested-build', store=name, op='', scenario='nested'))
+    except ValueError as e:
+      if 'forbidden' not in str(e).lower():
+        viols.append(dict(what=f'{name}: nested build raised ValueError without the explanation: {str(e)[:80]}',
+                          shape=[], sig='nested-build', store=name, op='', scenario='nested'))
+    except Exception as e:   # pylint: disable=broad-except
+      viols.append(dict(what=f'{name}: nested build raised {type(e).__name__}: {str(e)[:80]}',
+                        shape=[], sig='nested-build', store=name, op='', scenario='nested'))
+    try:
+      fdl.build(fdl.Config(dags.node_fn(1), 1))
+    except Exception as e:   # pylint: disable=broad-except
+      viols.append(dict(what=f'{name}: a build after the rejected nested build raised {type(e).__name__}',
+                        shape=[], sig='nested-build', store=name, op='', scenario='nested'))
+  return 1 + n_extra, 1 + n_extra, viols, [dict(scenario='nested build', observed=seen)]
 
 
 class BadStrCallable:
